@@ -127,7 +127,10 @@ def gen_wide_cfg(rng, kind, variant, aggs="one"):
         if rng.random() < 0.5:
             shapes.reverse()
     nsub = int(numpy.prod([e for s in shapes for e in s], dtype=int))
-    return gen_cfg(rng, kind, nsub, aggs=aggs, max_cells=900, shapes=shapes, rows=(40, 60))
+    try:
+        return gen_cfg(rng, kind, nsub, aggs=aggs, max_cells=1200, shapes=shapes, rows=(40, 60))
+    except RuntimeError:
+        return gen_cfg(rng, kind, nsub, aggs="one", max_cells=1200, shapes=shapes, rows=(40, 60))
 
 
 def estimate_cells(cfg):
